@@ -1357,10 +1357,13 @@ func runDecNorm(m *model.Model, s *ob.Set) {
 		}
 		return false
 	}
+	// φ cycles (a buffer threaded through a loop) are treated co-inductively: a φ already on
+	// the stack contributes nothing new, every other edge must be a normalised value.
+	onStack := map[*ssa.Phi]bool{}
 	var okVal func(v ssa.Value, d int) (bool, string)
 	okVal = func(v ssa.Value, d int) (bool, string) {
 		if d == 0 {
-			return false, "too deep"
+			return false, "a value whose construction is too deep to follow"
 		}
 		switch x := v.(type) {
 		case *ssa.Const:
@@ -1394,6 +1397,11 @@ func runDecNorm(m *model.Model, s *ob.Set) {
 		case *ssa.ChangeType:
 			return okVal(x.X, d-1)
 		case *ssa.Phi:
+			if onStack[x] {
+				return true, ""
+			}
+			onStack[x] = true
+			defer delete(onStack, x)
 			for _, e := range x.Edges {
 				if ok, w := okVal(e, d-1); !ok {
 					return false, w
@@ -1432,7 +1440,7 @@ func runDecNorm(m *model.Model, s *ob.Set) {
 					continue
 				}
 				nret++
-				if ok, why := okVal(r, 6); !ok {
+				if ok, why := okVal(r, 12); !ok {
 					bad = append(bad, fmt.Sprintf("%s: result %d is %s", m.InstrPos(ret), i, why))
 				}
 			}
